@@ -195,6 +195,7 @@ fn main() {
             ctx.rule = "per registry type: all triples of the bounded-exhaustive small value list (≤27k) + seeded random triples of larger values; laws checked with the type's own PartialEq on merge_owned results; non-trivial = some pair of the triple is incomparable in the independent model, or the join differs from all three inputs; distinct = by seed triple and type".into();
             ctx.floor = 2000;
             laws_registry(&mut ctx, &w);
+            tomb::c01_backends(&mut ctx, &w);
         }
         "C02" => {
             ctx.rule = "per (receiver, delta) type pair incl. cross-representation deltas: all pairs of small values + random pairs; oracle: returned flag == (delta not ≤ receiver in the independent model) and result == model join; non-trivial = delta and receiver incomparable, or equal across different representations, or strict growth of a non-bottom receiver by a non-bottom delta".into();
